@@ -42,7 +42,7 @@ ASSUMPTIONS = [
     "inputs are well-formed trees (id == position, root 0), any numbering",
     "order of the returned branches / paths / tips / furcations is unspecified",
 ]
-REQUIRED = ["branches_checked", "paths_checked", "tips_checked", "furcations_checked",
+REQUIRED = ["decompositions_from_inside_a_traversal", "branches_checked", "paths_checked", "tips_checked", "furcations_checked",
             "node_predicates_checked", "node_branch_checked", "branch_tree_checked",
             "branch_tree_memory_probed", "longest_path_checked", "root_one_child_trees",
             "derived_trees_checked", "negative_position_handles", "relinked_through_callers_array",
@@ -151,6 +151,33 @@ def _check(ctx, case, tree, spec):
     if len(ch[0]) == 1:
         ctx.count("root_one_child_trees")
 
+    if case.get("nested") and n <= 400:
+        # the decompositions asked for by user code that is itself running inside a traversal of
+        # another tree (per-node statistics): same answers, and the walk in progress goes on
+        def decomp():
+            bt_ = BranchTree.from_tree(tree)
+            return (sorted(_ids(b) for b in tree.get_branches()),
+                    sorted(_ids(p) for p in tree.get_paths()),
+                    sorted(int(x.id) for x in tree.get_tips()),
+                    sorted(int(x.id) for x in tree.get_furcations()),
+                    bt_.number_of_nodes())
+
+        want = (sorted(exp_br), sorted(exp_paths), sorted(tips), sorted(fur),
+                len({root, *fur, *tips}))
+        e_, l_, prob = G.inside_traversal(decomp, host=G.host_tree(case["tree"].get("seed", 0) % 7,
+                                                                    7 + case["tree"].get("seed", 0) % 9))
+        ctx.count("decompositions_from_inside_a_traversal")
+        if prob:
+            return ctx.violation("outer-traversal-disturbed",
+                                 f"a traversal of another tree, from whose callbacks the "
+                                 f"decompositions of this tree were asked for: {prob}", case)
+        for where, res in (("enter", e_), ("leave", l_)):
+            if res != want:
+                k_ = [i for i in range(5) if res is None or res[i] != want[i]]
+                return ctx.violation("nested-decomposition-wrong",
+                                     f"asked from inside the {where} callback of a traversal of "
+                                     f"another tree, {['branches', 'paths', 'tips', 'furcations', 'branch-tree nodes'][k_[0]]}"
+                                     f" differ from the tree's own (n={n})", case)
     # --- branches
     brs = tree.get_branches()
     got = [_ids(b) for b in brs]
@@ -346,6 +373,8 @@ def run(ctx):
             else:
                 rc = G.random_recipe(rng, max_n=G.size_ladder(ctx, k, 10, 45, 300), extras=0)
             case = {"tree": rc}
+            if k % 4 == 1:
+                case["nested"] = True
             if k % 3 == 2:
                 case["derive"] = str(rng.choice(["redirect", "copy-edit", "edit-in-place", "sort",
                                                    "edit-callers-array", "branch-tree"]))
